@@ -264,6 +264,14 @@ class _FuncAnalysis:
                 return frozenset({ELEMSET})
             return E0
         if name == "sorted":
+            # sorted(S) puts distinct elements into their one natural order.  sorted(S, key=f) is stable: elements with equal
+            # keys keep the order in which the set yields them - unless the key cannot tie (the element itself / its text)
+            key = next((k.value for k in c.keywords if k.arg == "key"), None)
+            injective = key is None or (isinstance(key, ast.Name) and key.id in ("str", "repr")) or (
+                isinstance(key, ast.Lambda) and isinstance(key.body, ast.Tuple) and key.body.elts and isinstance(key.body.elts[-1], ast.Name)
+                and key.args.args and key.body.elts[-1].id == key.args.args[0].arg)  # lambda x: (..., x): the element itself breaks every tie
+            if anyset and not injective:
+                return frozenset({ORD})
             return E0
         if name in BENIGN_FUNCS:
             return E0
